@@ -194,6 +194,18 @@ add("grmtools-kind", """%start S
 S -> u32: 'a' S { 0 } | 'b' { 1 };
 """, kind="grmtools", tags=["lr1"], inputs=["a a b", "a"])
 
+# grammars on which Pager's construction leaves unreachable states behind (gc() has real work):
+# found by tools/gcsearch.py over 24 000 seeded-random grammars
+add("gc0", "%start S\n%avoid_insert 'a'\n%%\nS: 'd' 'd' 'b' | 'a' 'a' C;\nA: 'a' C | D | 'c' 'b';\nB: D 'd' | D 'b' | 'b';\nC: S | 'a' S 'c' | 'b' D | 'a' 'd';\nD: 'd' S C | 'b' 'a' S | 'a';\n", tags=["gc"])
+add("gc1", "%start S\n%left 'a'\n%nonassoc 'b'\n%left 'c'\n%avoid_insert 'b' 'c'\n%%\nS: B 'a' | 'a';\nA:  | 'c' | 'a' 'a' C;\nB: C A | 'b' 'a' A | C 'b' 'b' | 'c';\nC: 'b' C | 'c' | A 'c' B;\n", tags=["gc"])
+add("gc2", "%start S\n%avoid_insert 'a'\n%%\nS: 'b' 'b' A | 'c' 'a';\nA: 'b' S 'a' | S | 'b';\n", tags=["gc"])
+add("gc3", "%start S\n%%\nS: 'a' 'a' S | A S 'a' | ;\nA: B 'b' B | 'a' 'a' B S | ;\nB: B |  | 'a' 'b';\n", tags=["gc"])
+add("gc4", "%start S\n%left 'a' 'c'\n%%\nS:  %prec 'c' | 'c' 'c' B %prec 'c';\nA: 'c' %prec 'a' | S 'a' B;\nB: 'c' %prec 'c' |  | S B %prec 'c' | S 'c' A;\n", tags=["gc"])
+add("gc5", "%start S\n%%\nS: S S A | B 'b' A | 'b' 'c' S | 'a' 'c';\nA: 'c' A | 'c' | A C 'a';\nB: A 'c' C | 'b' 'a' 'a' | ;\nC: 'c' 'c' C C | ;\n", tags=["gc"])
+add("gc6", "%start S\n%left 'a'\n%%\nS: 'b' B | 'b' A | ;\nA: 'b' 'b' S | 'b' | 'a' A A;\nB: 'a' S | S 'a' | 'b';\n", tags=["gc"])
+add("gc7", "%start S\n%%\nS: 'a' A | 'a';\nA: 'a' 'a' S A | 'a' S | 'a' 'a';\n", tags=["gc"])
+add("gc8", "%start S\n%%\nS: 'c' A | 'd' 'a' B | 'c' 'a' B 'c' | ;\nA: A C C 'b' | 'd' A | 'b' 'c' D 'd' | 'a' 'd';\nB: D 'a' 'd' 'c' | D | S | 'b' 'b';\nC: 'a' 'c' A;\nD: A C | C S | ;\n", tags=["gc"])
+
 
 def select(tags=None, exclude=()):
     out = []
